@@ -62,7 +62,8 @@ deriving DecidableEq, Repr
 
 /-- the state changes of `set_error_state` -/
 def setErr (s : Shell) : Shell :=
-  { s with methodErr := true, sys := .paused, lastErr := true, paused := true }
+  if s.started then { s with methodErr := true, sys := .paused, lastErr := true, paused := true }
+  else { s with methodErr := true, lastErr := true }   -- no run active: reported, state stays Stopped (repair 560eee15)
 
 /-- fault inside `set_error_state`: none / at its first call (nothing changed yet) / at its last call
     (`emit_on_method_error`; everything already changed) -/
